@@ -6,8 +6,8 @@
 #include "refmodel.h"
 
 const char *CHK_RULE = "one case = one scripted return-code sequence for one cell (handler kind x command/event FSM x with/without variables x payload-rewrite mode); sweep: all "
-                       "631 sequences over 11 code values up to length 6 (pruned at the first terminal code) for each of 36 cells; random: longer sequences, failing variable "
-                       "callbacks at every (pass, index), random io schedules; distinct by (cell, code sequence, failure position); every case is non-trivial";
+                       "631 sequences over 11 code values up to length 6 (pruned at the first terminal code) for each of 36 cells; overflow cells: READ of two variables on capacities around the point where the separator lands on the last byte, with and without a small event formatted next door; random: longer sequences, failing variable "
+                       "callbacks at every (pass, index), random io schedules, a bystander event in 30% of the command cells; distinct by (cell, code sequence, failure position); every case is non-trivial";
 
 static const int CODES[11] = { CAT_RETURN_STATE_NEXT, CAT_RETURN_STATE_DATA_NEXT, CAT_RETURN_STATE_ERROR, CAT_RETURN_STATE_DATA_OK, CAT_RETURN_STATE_OK, CAT_RETURN_STATE_HOLD,
                                CAT_RETURN_STATE_HOLD_EXIT_OK, CAT_RETURN_STATE_HOLD_EXIT_ERROR, CAT_RETURN_STATE_PRINT_CMD_LIST_OK, 99, -7 };
@@ -17,6 +17,8 @@ static int kind, fsm, nvars, rewrite, hold_status; static bool with_desc, crlf, 
 static int vr_fail, vw_fail, vr_calls, vw_calls;
 static int ninv; static char fresh0[256]; static bool have_fresh; static bool hold_pending;
 static char descr[600];
+/* overflow cells: a READ of two variables on a capacity around the point where the separator lands on the last byte of the buffer; with a small event in flight next door */
+static bool ovf, conc_event; static int ovf_digits, ovf_delta, conc_units; static long conc_step; static bool conc_accepted;
 
 /* observed units */
 struct unit { char type; char text[400]; };     /* D data, L list (concatenated raw lines), C result code */
@@ -24,6 +26,10 @@ static struct unit got[64], want[64]; static int ngot, nwant;
 static void on_unit(bool isA, bool raw, const char *text, size_t len, bool a, bool b)
 {
         (void)len; (void)a; (void)b;
+        if (conc_event && !isA && fsm == FSM_A) {      /* the bystander event: its line must come out whole, once */
+                if (strcmp(text, "+O=5") != 0) viol("C10", "concurrent-event-corrupted", "the event formatted while the command response was produced came out as \"%.30s\" instead of \"+O=5\"", text);
+                conc_units++; return;
+        }
         if ((fsm == FSM_A) != isA) { viol("C10", "unit-from-wrong-producer", "unit \"%.30s\" emitted by producer %c", text, isA ? 'A' : 'U'); return; }
         if (ngot >= 63) return;
         if (raw) {
@@ -89,7 +95,9 @@ static void run_cell(void)
         if (with_desc) c->description = xstr("about C");
         struct cat_variable *v = w_vars(c, (size_t)nvars);
         for (int j = 0; j < nvars; j++) { v[j].type = CAT_VAR_UINT_DEC; v[j].name = j ? "Y" : "X"; uint8_t *d = w_vdata(&v[j], 1); *d = (uint8_t)(7 + j); v[j].read = hv_read; v[j].write = hv_write; }
+        if (ovf) { uint32_t x = 1; for (int q = 1; q < ovf_digits; q++) x *= 10; uint8_t *d = w_vdata(&v[0], 4); memcpy(d, &x, 4); }      /* "+C=<ovf_digits digits>,8" */
         arr[1].name = xstr("+O"); arr[1].run = h_run;
+        { struct cat_variable *o = w_vars(&arr[1], 1); o->type = CAT_VAR_UINT_DEC; uint8_t *d = w_vdata(o, 1); *d = 5; }
         bool shared = chance(50);
         size_t cap = 200;
         if (tight) {      /* the smallest capacity that still holds every text of this cell: each response line and each list line fits, with 0..2 bytes to spare */
@@ -101,8 +109,10 @@ static void run_cell(void)
                 if (need < 12) need = 12;                    /* room for the "~<k>" payloads */
                 cap = need + 1 + rn(3);
         }
+        if (ovf) { long k = 4 + ovf_digits + ovf_delta; cap = k < 6 ? 6 : (size_t)k; }      /* delta 0: "+C=<digits>" is capacity-1 characters long, the separator is the last byte */
         w_buffers(shared ? cap * 2 + rn(2) : cap, shared, cap);
         w_init((int)rn(2));
+        conc_units = 0; conc_accepted = false; conc_step = conc_event ? (long)rn(40) : -1;
         POLICY = policy; VPOLICY = vpolicy; ON_UNIT = on_unit;
         ninv = 0; have_fresh = false; hold_pending = false; vr_calls = vw_calls = 0; ngot = nwant = 0;
 
@@ -110,6 +120,11 @@ static void run_cell(void)
         const char *final = NULL; int einv = 0; bool list = false; int vr = 0;
         bool rt = kind == K_READ || kind == K_TEST;
         if (kind == K_WRITE && nvars > 0 && vw_fail >= 0 && vw_fail < nvars) final = "ERROR";
+        if (!final && rt) {      /* an automatic text that does not fit its buffer: ERROR (nothing for an event), the handler is not asked */
+                char t[700]; int n = kind == K_READ ? ref_fmt_read(c, t, sizeof t) : ref_fmt_test(c, crlf ? "\r\n" : "\n", t, sizeof t);
+                size_t capf = fsm == FSM_A ? W.capA : W.capU;
+                if (n < 0 || (size_t)n >= capf) { final = "ERROR"; CNT("automatic_texts_that_do_not_fit"); if ((size_t)n == capf || (size_t)n == capf + 1) CNT("automatic_texts_one_or_two_bytes_too_long"); }
+        }
         while (!final) {
                 if (kind == K_READ && nvars > 0) { bool failed = false; for (int j = 0; j < nvars; j++) if (vr++ == vr_fail) failed = true; if (failed) { final = "ERROR"; break; } }
                 int k = einv++;
@@ -145,16 +160,19 @@ static void run_cell(void)
                 static const char *l[4] = { "AT+C", "AT+C?", "AT+C=", "AT+C=?" };
                 in_puts(l[kind]); if (kind == K_WRITE) in_puts(nvars == 2 ? "7,8" : "7"); in_puts(crlf ? "\r\n" : "\n");
         }
-        size_t o = 0; o += (size_t)snprintf(descr + o, sizeof descr - o, "cell: %s handler on the %s FSM, %d variable(s), rewrite mode %d, desc %d; var read fails at call %d, var write at call %d; code script:",
-                                            kn[kind], fsm ? "event" : "command", nvars, rewrite, with_desc, vr_fail, vw_fail);
+        size_t o = 0; o += (size_t)snprintf(descr + o, sizeof descr - o, "cell: %s handler on the %s FSM, %d variable(s), rewrite mode %d, desc %d; var read fails at call %d, var write at call %d;%s%s code script:",
+                                            kn[kind], fsm ? "event" : "command", nvars, rewrite, with_desc, vr_fail, vw_fail, ovf ? " capacity around the separator-on-last-byte point;" : "", conc_event ? " a READ event of +O is triggered meanwhile;" : "");
         for (int i = 0; i < slen && o + 8 < sizeof descr; i++) o += (size_t)snprintf(descr + o, sizeof descr - o, " %d", script[i]);
         long bound = 4000 + 400 * (long)(slen + 2), i; bool quiet = false;
         for (i = 0; i < bound; i++) {
+                if (i == conc_step && fsm == FSM_A) conc_accepted = cat_trigger_unsolicited_event(W.at, W.cmd[1], CAT_CMD_TYPE_READ) == CAT_STATUS_OK;
                 cat_status s = svc();
                 if (hold_pending) { hold_pending = false; if (cat_hold_exit(W.at, hold_status ? CAT_STATUS_ERROR : CAT_STATUS_OK) != CAT_STATUS_OK) viol("C14", "release-refused", "cat_hold_exit refused right after HOLD"); }
-                if (s == CAT_STATUS_OK && INPOS >= INLEN) { quiet = true; break; }
+                if (s == CAT_STATUS_OK && INPOS >= INLEN && i >= conc_step) { quiet = true; break; }
         }
         if (!quiet) { inconclusive("no quiescence (C15's subject)"); return; }
+        if (conc_event && fsm == FSM_A) { CNT("sequences_with_a_bystander_event"); if (conc_accepted && conc_units != 1) viol("C10", "concurrent-event-corrupted", "the bystander event was emitted %d times", conc_units); }
+        if (ovf) CNT("overflow_cells");
 
         /* ---------- verdict ---------- */
         for (int q = 0; q < nwant; q++) if (want[q].type == 'D' && want[q].text[0] == 1) snprintf(want[q].text, sizeof want[0].text, "%s", have_fresh ? fresh0 : "?");
@@ -192,7 +210,9 @@ static void decode_seq(long s)
 }
 static const int CELL_KIND[6] = { K_RUN, K_READ, K_WRITE, K_TEST, K_READ, K_TEST };
 static const int CELL_FSM[6] = { FSM_A, FSM_A, FSM_A, FSM_A, FSM_U, FSM_U };
-#define N_SWEEP (36L * 631)
+#define N_SWEEP_A (36L * 631)
+#define N_SWEEP_B (10L * 6 * 2 * 2 * 4)
+#define N_SWEEP (N_SWEEP_A + N_SWEEP_B)
 
 struct case_budget chk_budget(const char *tier)
 {
@@ -202,7 +222,15 @@ struct case_budget chk_budget(const char *tier)
 void chk_run_case(uint64_t seed, long c, bool is_sweep)
 {
         (void)seed;
-        vr_fail = vw_fail = -1; hold_status = 0; descr[0] = 0;
+        vr_fail = vw_fail = -1; hold_status = 0; descr[0] = 0; ovf = false; conc_event = false;
+        if (is_sweep && c >= N_SWEEP_A) {      /* overflow cells: digits 1..10 x delta -2..+3 x FSM x code x bystander */
+                long k = c - N_SWEEP_A;
+                ovf = true; ovf_digits = 1 + (int)(k % 10); k /= 10; ovf_delta = (int)(k % 6) - 2; k /= 6; fsm = (int)(k % 2); k /= 2; conc_event = (k % 2) && fsm == FSM_A; k /= 2;
+                kind = K_READ; nvars = 2; rewrite = 0; with_desc = false; crlf = (k & 1); tight = false; slen = 1; script[0] = k & 2 ? CAT_RETURN_STATE_DATA_OK : CAT_RETURN_STATE_OK;
+                sch_eager(&RS); if (conc_event) sch_bern(&WS, 60, (uint64_t)c); else sch_eager(&WS);
+                run_cell();
+                return;
+        }
         if (is_sweep) {
                 long cell = c / 631; decode_seq(c % 631);
                 int kf = (int)(cell % 6); kind = CELL_KIND[kf]; fsm = CELL_FSM[kf]; cell /= 6;
@@ -218,6 +246,8 @@ void chk_run_case(uint64_t seed, long c, bool is_sweep)
                 if (chance(35)) vr_fail = (int)rn(12);
                 if (chance(25)) vw_fail = (int)rn(3);
                 if (chance(50)) { sch_bern(&RS, 30 + rn(70), rnd()); sch_bern(&WS, 30 + rn(70), rnd()); }
+                if (fsm == FSM_A && chance(30)) conc_event = true;
+                if (chance(12)) { ovf = true; kind = K_READ; nvars = 2; ovf_digits = 1 + (int)rn(10); ovf_delta = (int)rn(6) - 2; tight = false; }
         }
         if (fsm == FSM_U) for (int i = 0; i < slen; i++) if (script[i] == CAT_RETURN_STATE_HOLD) script[i] = CAT_RETURN_STATE_OK;   /* HOLD from an event handler is an unspecified cell (DESIGN 3.2) */
         run_cell();
